@@ -38,7 +38,8 @@ def shards(tier):
                for e in ("identity", "gapped", "extremes", "random")]
         out += [{"label": "random", "kind": "random", "n": 3000, "maxlen": 300},
                 {"label": "many", "kind": "many", "n": 4000},
-                {"label": "insitu", "kind": "insitu", "n": 150}]
+                {"label": "insitu", "kind": "insitu", "n": 150},
+                {"label": "repotests", "kind": "repotests"}]
     else:
         out = []
         for e in ("identity", "gapped", "extremes", "random"):
@@ -49,6 +50,7 @@ def shards(tier):
         out += [{"label": "long", "kind": "random", "n": 300, "maxlen": 100000, "long": True}]
         out += [{"label": "many%d" % i, "kind": "many", "n": 40000} for i in range(2)]
         out += [{"label": "insitu%d" % i, "kind": "insitu", "n": 1500} for i in range(2)]
+        out += [{"label": "repotests", "kind": "repotests", "timeout_s": 3600}]
     return out
 
 
@@ -250,6 +252,10 @@ def run_shard(ctx):
                 return
     elif kind == "insitu":
         insitu(ctx, s["n"])
+    elif kind == "repotests":
+        from .. import repotests
+
+        repotests.run(ctx, "C08")
 
 
 # --------------------------------------------------------------------------- #
